@@ -10,7 +10,7 @@ CFLAGS = ["-g", "-O0", "-w"]
 
 def sh(cmd, cwd, env=None, timeout=300):
     try:
-        p = subprocess.run(cmd, cwd=cwd, capture_output=True, text=True, env=env, timeout=timeout)
+        p = subprocess.run(cmd, cwd=cwd, capture_output=True, text=True, errors="replace", env=env, timeout=timeout)
     except subprocess.TimeoutExpired:
         return 124, "", "timeout: %s" % " ".join(cmd)
     return p.returncode, p.stdout, p.stderr
@@ -100,5 +100,5 @@ def run_exe(cwd, exe, trace="trace.txt", env_extra=None, timeout=120):
     if os.path.exists(tp):
         os.unlink(tp)
     rc, so, se = sh([os.path.join(cwd, exe)], cwd, env=env, timeout=timeout)
-    tr = open(tp).read() if os.path.exists(tp) else ""
+    tr = open(tp, errors="replace").read() if os.path.exists(tp) else ""
     return rc, so, se, tr
